@@ -57,13 +57,14 @@ class _modules_copyable:
         Make this class a singleton (there exists at most one instance).
         """
         if not hasattr(cls, "__instance__"):
-            cls.__instance__ = super().__new__(cls, *args, **kwargs)
+            # The shared state is initialised exactly once, together with the
+            # singleton (an `__init__` would re-run, and reset it, on every use).
+            instance = super().__new__(cls, *args, **kwargs)
+            instance.lock = RLock()
+            instance.refcount = 0
+            instance.patched_table = False
+            cls.__instance__ = instance
         return cls.__instance__
-
-    def __init__(self):
-        self.lock = RLock()
-        self.refcount = 0
-        self.patched_table = False
 
     def __enter__(self):
         with self.lock:
@@ -79,6 +80,9 @@ class _modules_copyable:
             if self.patched_table and self.refcount == 0:
                 del copyreg.dispatch_table[ModuleType]
                 self.patched_table = False
+
+
+_modules_copyable()  # Create the singleton at import time (i.e. before any threads can race to do so).
 
 
 def mutate_attr(
